@@ -457,7 +457,16 @@ fn subtract_one(a: usize, b: usize, program: &mut Program) -> Vec<usize> {
             ) else {
                 return vec![a];
             };
-            if i1.name != i2.name || i1.fields.len() != i2.fields.len() {
+            // Tuples with a different name, arity or field labels share no value: nothing to
+            // subtract (as `types_overlap` answers for the cycle-free operands above).
+            if i1.name != i2.name
+                || i1.fields.len() != i2.fields.len()
+                || i1
+                    .fields
+                    .iter()
+                    .zip(i2.fields.iter())
+                    .any(|((n1, _), (n2, _))| n1 != n2)
+            {
                 return vec![a];
             }
             // `[A] ∖ [b]` = union over i of `[A₀, …, Aᵢ∖bᵢ, …, Aₙ]`.
